@@ -62,6 +62,16 @@ if [ $ok = 1 ] && [ -n "$demo" ] && [[ "$demo" == *.txt ]]; then
     if [ "$c0" = "0" ] && [ "$c1" = "99" ]; then :; else echo "VALGRIND DOES NOT SEPARATE THEM"; ok=0; fi
   fi
 fi
+if [ $ok = 1 ] && [ -n "$demo" ] && [[ "$demo" == *.sh ]]; then
+  # a script run from the worktree root: exit 0 without the change, non-zero with it
+  mkdir -p SEED; cp "$src"/SEED/* SEED/ 2>/dev/null
+  timeout 300 bash SEED/demo.sh >/tmp/demo-with.txt 2>&1; c1=$?
+  git apply -R "$src/SEED/patch.diff"; cargo build --offline -q 2>/dev/null
+  timeout 300 bash SEED/demo.sh >/tmp/demo-without.txt 2>&1; c0=$?
+  echo "--- script WITH change (exit $c1):"; head -8 /tmp/demo-with.txt
+  echo "--- script WITHOUT change (exit $c0):"; head -8 /tmp/demo-without.txt
+  if [ "$c0" = "0" ] && [ "$c1" != "0" ]; then :; else echo "SCRIPT DOES NOT SEPARATE THEM"; ok=0; fi
+fi
 mkdir -p /verif/seeded/$id
 cp "$src"/SEED/patch.diff /verif/seeded/$id/ 2>/dev/null
 cp "$src"/SEED/demo.* /verif/seeded/$id/ 2>/dev/null
